@@ -428,7 +428,8 @@ def r08_3(chk, sd, inv):
     q = None
     for cand in ["make_invariants"] + sorted(k for k in sd.funcs if k != "make_invariants"):
         fn0 = sd.funcs[cand]
-        if any(isinstance(n, ast.Name) and n.id == "MAX_L_MAX" and isinstance(n.ctx, ast.Store) for n in ast.walk(fn0)):
+        if any(isinstance(n, ast.Name) and n.id == "MAX_L_MAX" and isinstance(n.ctx, ast.Store) for n in ast.walk(fn0)) or \
+                (cand == "make_invariants" and any(e.kind == "assign" and e.name == "MAX_L_MAX" for e in sd.ev(cand).events)):
             q = cand
             break
     chk.need(q is not None, "make_invariants: MAX_L_MAX literal not found in shape_descriptors")
